@@ -116,6 +116,13 @@ class World:
             self.sims = [simu]
             self.beam = beam
             self.model = simu.model
+        elif sim == "frame":
+            # two members meeting at a corner with their own nodes; Lagrange conditions (connections) enlarge the matrix system
+            simu, beams, self.frame_nodes = simlib.frame_simu(timoshenko=elem == "timoshenko")
+            self.sims = [simu]
+            self.beam = beams[0]
+            self.beams = beams
+            self.model = simu.model
         else:
             mesh = simlib.small_mesh(MESHES[elem])
             self.model = self.new_model(mesh.dim)
@@ -171,6 +178,10 @@ class World:
             s.add_neumann(nodes, list(values), list(unknowns))
         elif kind == "volume":
             s.add_volumeLoad(nodes, list(values), list(unknowns))
+        elif kind == "weld":
+            s.add_connection_fixed(nodes)
+        elif kind == "hinge":
+            s.add_connection_hinged(nodes)
 
     def add_bc(self, i, bc):
         self.apply_bc(self.sims[i], bc)
@@ -185,6 +196,14 @@ class World:
             # a member built from scratch with the public parameters of the mutated one
             s2, b2, _ = simlib.beam_simu(3, "SEG2", (0.0, 0.0, 0.0), (2.0, 3.0, 6.0), 2, self.elem == "timoshenko", E=210.0, yAxis=tuple(float(x) for x in self.beam.yAxis))
             b2.E = self.beam.E
+            s2.rho = self.P[i]["rho"]
+            for bc in self.P[i]["bc"]:
+                self.apply_bc(s2, bc)
+            return s2
+        if self.sim == "frame":
+            s2, b2, _ = simlib.frame_simu(timoshenko=self.elem == "timoshenko")
+            for bm, src in zip(b2, self.beams):
+                bm.E = src.E
             s2.rho = self.P[i]["rho"]
             for bc in self.P[i]["bc"]:
                 self.apply_bc(s2, bc)
@@ -207,7 +226,7 @@ def warm(w, i=0, solve=True):
     from EasyFEA.FEM import MatrixType
 
     s = w.sims[i]
-    if w.sim == "beam":
+    if w.sim in ("beam", "frame"):
         s.Get_K_C_M_F()
         s.Bc_vector_Neumann()
         if solve and w.P[i]["bc"]:
@@ -236,7 +255,7 @@ def warm(w, i=0, solve=True):
         s.Result(name, nodeValues=False)
 
 
-RESULTS = {"elastic": ["Stress", "Wdef_e"], "thermal": ["thermal"], "hyper": [], "beam": []}
+RESULTS = {"elastic": ["Stress", "Wdef_e"], "thermal": ["thermal"], "hyper": [], "beam": [], "frame": []}
 
 
 # ------------------------------------------------------------------------------------------------ operations
@@ -249,7 +268,7 @@ def op_apply(w, name, V, tag):
     if name == "lmbda":
         m.lmbda = V.get(f"lmbda{tag}", 1, 10)
     elif name == "E":
-        (w.beam if w.sim == "beam" else m).E = V.get(f"E{tag}", 50, 500)
+        (w.beam if w.sim in ("beam", "frame") else m).E = V.get(f"E{tag}", 50, 500)
     elif name == "v":
         m.v = V.get(f"nu{tag}", Fraction(1, 10), Fraction(2, 5))
     elif name == "yAxis":
@@ -314,6 +333,21 @@ def op_apply(w, name, V, tag):
     elif name == "newmesh":
         s.mesh = second_mesh(w.elem)
         w.P[0]["bc"] = []  # documented: replacing the mesh re-initialises the boundary conditions
+    elif name in ("bc", "weld", "hinge") and w.sim == "frame":
+        # clear every condition (Dirichlet, Neumann, Lagrange) and enter another set: the corner is clamped / welded / hinged
+        fn = w.frame_nodes
+        s.Bc_Init()
+        w.P[0]["bc"] = []
+        un = w.unknowns()
+        w.add_bc(0, ("dirichlet", fn["clamp"], [0] * len(un), un))
+        if name == "bc":
+            w.add_bc(0, ("dirichlet", fn["corner"][1:], [0] * len(un), un))
+        elif name == "weld":
+            w.add_bc(0, ("weld", fn["corner"], None, None))
+        else:
+            w.add_bc(0, ("hinge", fn["corner"], None, None))
+            w.add_bc(0, ("dirichlet", fn["corner"][1:], [0], ["rz"]))
+        w.add_bc(0, ("neumann", fn["tip"], [V.get(f"q{tag}{k}", -1, 1) for k in range(len(un))], un))
     elif name == "bc":
         s.Bc_Init()
         w.P[0]["bc"] = []
@@ -349,10 +383,11 @@ FIELD_OPS = ("Efield", "kfield", "rhofield")  # per-element fields: tied to the 
 OPS = {"elastic": ["E", "v", "planeStress", "thickness", "rho", "damping", "translate", "rotate", "symmetry", "coord", "gcoord", "newmesh", "bc", "bc_add", "set_iter", "Efield", "rhofield"],
        "thermal": ["k", "c", "thickness", "rho", "translate", "rotate", "symmetry", "coord", "gcoord", "newmesh", "bc", "set_iter", "kfield", "rhofield"],
        "hyper": ["lmbda", "thickness", "rho", "translate", "symmetry", "coord", "gcoord", "newmesh"],
-       "beam": ["E", "yAxis", "rho", "bc"]}
+       "beam": ["E", "yAxis", "rho", "bc"],
+       "frame": ["E", "rho", "bc", "weld", "hinge"]}
 
 
-NON_NOTIFYING = ("bc", "bc_add")
+NON_NOTIFYING = ("bc", "bc_add", "weld", "hinge")
 OWN_ONLY = ("rho", "damping", "newmesh", "set_iter")  # operations on simulation 1 that leave a second simulation sharing its model / mesh untouched
 
 
@@ -417,6 +452,13 @@ def run(cfg, V):
     un = w.unknowns()
     for i, s in enumerate(w.sims):
         nodes = s.mesh.nodes
+        if w.sim == "frame":
+            fn = w.frame_nodes
+            w.add_bc(i, ("dirichlet", fn["clamp"], [0] * len(un), un))
+            w.add_bc(i, ("weld", fn["corner"], None, None))
+            w.add_bc(i, ("neumann", fn["tip"], [0.5 + k for k in range(len(un))], un))
+            warm(w, i)
+            continue
         w.add_bc(i, ("dirichlet", nodes[:1], [0] * len(un), un))
         # nodal loads: their stored values do not depend on the geometry at the time they are added (a distributed load is integrated
         # when it is added; its stored values are data of the configuration, not a cache)
@@ -511,7 +553,7 @@ def job_seq(cfg):
     # reachability twin: K after the sequence differs from 1.001 x fresh K
     g, wnt = dict(out[0][0])["K"], dict(out[0][1])["K"]
     idx = next((ix for ix in np.ndindex(*g.shape) if not facade._isnum0(wnt[ix])), None)
-    tw = False
+    tw = g.shape != wnt.shape  # a structural difference is itself a reached (and reported) failing comparison
     if idx is not None and g.shape == wnt.shape:
         o = prove_abs_le(as_sym(g[idx]) - as_sym(wnt[idx]) * Fraction(1001, 1000), TOL, pcs, "twin")
         tw = o.status == "cex"
@@ -564,6 +606,13 @@ def configs(tier):
             out.append({"sim": "beam", "elem": kind, "ops": [a, b]})
     # a per-element field is written for one mesh: sequences that replace the mesh after it are not meaningful
     out = [cf for cf in out if not any(o in FIELD_OPS and any(b in ("newmesh", "set_iter") for b in cf["ops"][k + 1:]) for k, o in enumerate(cf["ops"]))]
+    # two-member frame: connections are Lagrange conditions, the matrix system is sized for their multipliers
+    for kind in (("eulerbernoulli", "timoshenko") if tier == "thorough" else ("eulerbernoulli",)):
+        fops = OPS["frame"]
+        for o in fops:
+            out.append({"sim": "frame", "elem": kind, "ops": [o]})
+        for a, b in [(a, b) for a in fops for b in fops]:
+            out.append({"sim": "frame", "elem": kind, "ops": [a, b]})
     extra = [("elastic", "QUAD4"), ("elastic", "TETRA4")] if tier == "thorough" else []
     for sim, elem in extra:
         for o in OPS[sim]:
